@@ -24,7 +24,7 @@ ASSUMPTIONS = [
     "volumes are compared with -1e-12 * (sum of |corner values|): floating-point cancellation scale of the 2^d-corner sum",
     "mixed derivative relation decided by integration (scipy nquad, 1e-9) against exact F-volumes, not by numerical differentiation",
 ]
-REQUIRED_COUNTERS = ["degenerate_rectangles", "tiny_magnitude_rectangles", "grounded_checks", "volume_checks", "margin_checks", "conditional_monotone_checks", "inverse_roundtrips",
+REQUIRED_COUNTERS = ["inverse_roundtrips_in_the_tails", "degenerate_rectangles", "tiny_magnitude_rectangles", "grounded_checks", "volume_checks", "margin_checks", "conditional_monotone_checks", "inverse_roundtrips",
                      "mixed_derivative_checks", "copula_parameter_reassigned", "volume_checks_all_infinite_upper_corner"]
 MIN_NONTRIVIAL = {"quick": 30, "thorough": 300}
 THOROUGH_ROUNDS = 8      # the thorough tier runs the generators this many times (different seeds)
@@ -258,6 +258,20 @@ def _conditional(F, c, rng, R, label, wit, suffix=""):
                 R.violation("clayton-inverse-conditional-does-not-invert" + suffix, f"{label}: F_eps(inverse(y)) = {back!r} for y = {y!r}, eps = {eps!r} "
                             f"(inverse = {x!r})", wit)
                 return
+            # ... and far in the tails of the conditional law (probabilities 1e-15 .. 1e-10 away from 0 and from 1)
+            tail = 10.0 ** float(rng.uniform(-15, -10))
+            for yt in (tail, 1.0 - tail):
+                if (c["eta"] in (0.0, 1.0)) or abs(yt - at0) < 1e-9:
+                    continue
+                with np.errstate(all="ignore"):
+                    xt = float(np.asarray(F.inverse_conditional_distribution(np.array([eps]), np.array([yt]))).reshape(-1)[0])
+                    bt = float(F.conditional_distribution(eps, np.array([xt]))[0]) if np.isfinite(xt) else (0.0 if xt < 0 else 1.0)
+                R.hit("inverse_roundtrips_in_the_tails")
+                # (1 - y carries a rounding of 1e-16: the probability is recovered to half of the tail mass + 4e-15)
+                if not (abs(bt - yt) <= 0.5 * min(yt, 1 - yt) + 4e-15):
+                    R.violation("clayton-inverse-conditional-does-not-invert-in-the-tails" + suffix, f"{label}: F_eps(inverse(y)) = {bt!r} for y = {yt!r}, eps = {eps!r} "
+                                f"(inverse = {xt!r})", wit)
+                    return
             x0 = float(10 ** rng.uniform(-3, 3)) * (1 if rng.random() < 0.5 else -1)
             y0 = float(F.conditional_distribution(eps, np.array([x0]))[0])
             if 1e-9 < y0 < 1 - 1e-9 and abs(y0 - at0) > 1e-9:
